@@ -360,6 +360,41 @@ def run_shard(spec, tier, seed):
                                       {"exc": f"{type(e).__name__}: {e}"[:300]})
                     except Exception:
                         pass
+                # ---- a secondary vector operand (booster) of another depth, or a record as `self`: both sides carry their own
+                # extra fields; the result takes the deeper structure and never the secondary operand's fields
+                if vecpos and op.name not in TWO_VECTOR and op.name != "rotate_axis" and op.result == "vec":
+                    for how in ("flat x jagged booster", "record x jagged booster", "jagged x flat booster"):
+                        try:
+                            if how.startswith("jagged"):
+                                sv_, _ = build(s_self, [l.f64()[0] for l in selfs], selfs[0].momentum, J, "zip", 0, None, tag="_ev")
+                            else:
+                                sv_, _ = build(s_self, [l.f64()[0] for l in selfs[:4]], selfs[0].momentum, [0, 1, 2, 3], "zip", 0, None, tag="_ev")
+                            if how.startswith("record"):
+                                sv_ = sv_[2]
+                            a = list(plain)
+                            for j in vecpos:
+                                col = [c[1][j] for c in cases]
+                                if how.endswith("flat booster"):
+                                    a[j], _ = build(s_other, [l.f64()[0] for l in col[:4]], col[0].momentum, [0, 1, 2, 3], "zip", 0, None, tag="_b")
+                                else:
+                                    a[j], _ = build(s_other, [l.f64()[0] for l in col], col[0].momentum, J, "zip", 0, None, tag="_b")
+                            res.evaluations += 1
+                            out = op.call(sv_, *a)
+                        except Exception as e:
+                            res.violation(f"C18/operation-raises-on-layout layout=secondary-operand-of-another-depth op={op.name}",
+                                          {"how": how, "exc": f"{type(e).__name__}: {e}"[:300]})
+                            continue
+                        fo = list(ak.fields(out))
+                        own = [f for f in ak.fields(sv_) if f not in COORD_NAMES]
+                        foreign = [f for f in fo if f not in COORD_NAMES and f not in own]
+                        if foreign:
+                            res.violation(f"C18/fields-of-the-secondary-operand-in-result op={op.name}", {"how": how, "fields": fo, "foreign": foreign})
+                        probe = out[fo[0]]
+                        got = repr(awk.skeleton(ak.to_list(probe)))
+                        if got != jag_fp:
+                            res.violation(f"C18/broadcast-result-does-not-take-the-deeper-structure op={op.name}",
+                                          {"how": how, "got": got[:200], "expected": jag_fp, "type": str(out.type)[:200]})
+                        res.cell(f"{op.name}|secondary-other-depth|{how}", "fields+structure")
                 if len(res.samples) < 4:
                     res.sample({"op": op.name, "dim": dim, "system": R.sysname(s_self), "layouts": list(L), "example_type": str(v.type)[:160]})
     return res
